@@ -1,7 +1,7 @@
 #!/venv/bin/python
 """Set up one round of independent seeded changes (DESIGN section 9).
 
-usage: tools/seed_round.py <round>
+usage: [PROPS="C02 C06"] tools/seed_round.py <round>
 
 For every property: a scratch git worktree of /repo at /tmp/wt/<ID> (outside /repo and /verif), an output directory
 /tmp/wt-out<round>/<ID>/ and the self-contained PROMPT.txt a fresh sub-agent is pointed at.  The prompt contains only the
@@ -35,6 +35,8 @@ HINT = (
 for line in open(os.path.join(HERE, "properties.jsonl")):
     p = json.loads(line)
     ID = p["id"]
+    if os.environ.get("PROPS") and ID not in os.environ["PROPS"].split():
+        continue
     wt = f"/tmp/wt/{ID}"
     if not os.path.isdir(wt):
         os.makedirs("/tmp/wt", exist_ok=True)
@@ -56,4 +58,4 @@ for line in open(os.path.join(HERE, "properties.jsonl")):
         a = t.index("Deliver TWO different seeded defects")
         t = t[:a] + HINT + "\n".join(prior) + "\n\n\n" + t[a:]
     open(f"{OUT}/{ID}/PROMPT.txt", "w").write(t)
-print("round", rnd, "HEAD", HEAD, "prompt bytes (C01):", len(open(f"{OUT}/C01/PROMPT.txt").read()))
+print("round", rnd, "HEAD", HEAD, "prompts:", sorted(os.listdir(OUT)))
